@@ -8,6 +8,9 @@ from . import c06_abi as A
 W = 2 ** 256
 
 
+SEL_REACH = (2 ** 256 - 4).to_bytes(32, "big")
+
+
 def corruptions(rng, base, quick=True, cap=110):
     """list of (coq_term, python_fn) over the base encoding (bytes).  Word-level corruptions are type
     agnostic: every word is tried as if it were a scalar, a length and an offset."""
@@ -177,7 +180,10 @@ def run_job(job):
                 if kind == "call":
                     r = ch.call(main, mids["echo"] + data)
                     r2 = ch.call(main, mids["echo_mem"] + data)
-                    if (r.ok, r.out) != (r2.ok, r2.out):
+                    # an offset word in [2^256-4, 2^256-1] wraps into the (different) selector bytes: the two entry
+                    # points may then legitimately differ; the model is evaluated with echo's selector
+                    reach = any(data[i:i + 32] >= SEL_REACH for i in range(0, len(data) - 31, 32))
+                    if (r.ok, r.out) != (r2.ok, r2.out) and not reach:
                         obs.append(("split", r.out.hex() + "/" + r2.out.hex()))
                         continue
                 elif kind == "len":
